@@ -6,6 +6,7 @@ from fractions import Fraction
 
 from .kern import *  # noqa
 from symx.solver import explore, prove_zero
+from symx import solver as S
 from symx import harness as H
 
 MOD = "harness.opwire"
@@ -55,6 +56,7 @@ def _operator(eo, order, mode, thr, its, running):
 
 def case_wiring(log, pid, order, mode, thr, its=1, running=False):
     eo = sym_module("eko.evolution_operator")
+    eo.np.geomspace_roots = True  # interior geometric nodes as algebraic root atoms
     log.encode(eo.Operator.mu2, eo.Operator.compute_a, eo.Operator.compute_aem_list, eo.Operator.quad_ker)
     rp = (MOD, "replay_wiring", {"order": list(order), "mode": mode, "thr": thr, "its": its, "running": running})
     key = "Operator.wiring:%s" % mode
@@ -121,11 +123,117 @@ def case_wiring(log, pid, order, mode, thr, its=1, running=False):
     log.path_stats(pm)
 
 
-def add_cases(chk, pid, thorough):
+class _Stop(Exception):
+    pass
+
+
+class _Logger:
+    def __init__(self):
+        self.msgs = []
+
+    def info(self, fmt, *a):
+        self.msgs.append(fmt)
+        if "computing operators" in fmt:
+            raise _Stop()
+
+    warning = debug = error = info
+
+
+def case_skip(log, pid, mode, thr):
+    """Operator.compute: the unity short-cut (copy_ns_ops, no integration) is taken only when the operator really is the unity:
+    the evolution length is negligible and -- in the expanded scheme away from a threshold -- so is ln(xif2)."""
+    eo = sym_module("eko.evolution_operator")
+    log.encode(eo.Operator.compute, eo.Operator.mu2)
+    rp = (MOD, "replay_skip", {"mode": mode, "thr": thr})
+    key = "Operator.compute:unity-shortcut:%s" % mode
+    log.register_replay(key, rp, _sampler_skip)
+
+    def run():
+        op, q0, q1, xi = _operator(eo, (3, 0), mode, thr, 1, False)
+        taken = []
+        op.initialize_op_members = lambda: None
+        op.copy_ns_ops = lambda: taken.append(1)
+        lg = _Logger()
+        saved = eo.logger
+        eo.logger = lg
+        try:
+            op.compute()
+        except _Stop:
+            pass
+        finally:
+            eo.logger = saved
+        tag = "%s, is_threshold=%s" % (mode, thr)
+        if taken:
+            d = q0 - q1
+            tol = q1 * Fraction(1, 10000) + Fraction(1, 10**7)
+            v = S.prove_rel(d * d - tol * tol, "<=0", "unity short-cut taken => |q2_from - q2_to| <= 1e-7 + 1e-4 q2_to [%s]" % tag)
+            log.decide(v, key=key, replay=rp, sampler=_sampler_skip)
+            if mode == "expanded" and not thr:
+                e = xi - 1
+                v = S.prove_rel(e * e - Fraction(1, 10**8), "<=0", "unity short-cut taken in the expanded scheme away from thresholds => |xif2 - 1| <= 1e-4 [%s]" % tag)
+                log.decide(v, key=key, replay=rp, sampler=_sampler_skip)
+        else:
+            # the integration is entered: never with exactly coinciding scales where the kernels are singular, unless the
+            # scale-variation kernel has to be applied
+            if not (mode == "expanded" and not thr):
+                v = S.prove_rel(q0 - q1, "!=0", "integration entered => q2_from != q2_to [%s]" % tag)
+                log.decide(v, key=key, replay=rp, sampler=_sampler_skip)
+        log.twin("domain")
+        log.collect_ctx()
+
+    _r, pm = explore(run)
+    log.path_stats(pm)
+
+
+def _sampler_skip(rng):
+    q0 = rnd(rng, 2, 300)
+    xi = rnd(rng, 0.2, 5)
+    k = rng.randrange(4)
+    q1 = [q0 / xi, q0 * xi, q0, rnd(rng, 2, 300)][k]
+    return {"q2_from": q0, "q2_to": q1, "xif2": xi}
+
+
+def replay_skip(point, mode, thr):
+    """the same on the real Operator.compute with floats"""
+    import importlib
+    from eko.io.types import ScaleVariationsMethod
+
+    eo = importlib.import_module("eko.evolution_operator")
+    q0, q1, xi = (float(point.get(k, d)) for k, d in (("q2_from", 40.0), ("q2_to", 10.0), ("xif2", 4.0)))
+    if not (q0 > 0 and q1 > 0 and xi > 0):
+        return None
+    enumv = {"unvaried": None, "exponentiated": ScaleVariationsMethod.EXPONENTIATED, "expanded": ScaleVariationsMethod.EXPANDED}[mode]
+    op = object.__new__(eo.Operator)
+    op.config = {"xif2": xi, "ModSV": enumv, "ev_op_iterations": 1, "ev_op_max_order": (10, 0), "order": (3, 0),
+                 "n3lo_ad_variation": (0,) * 7, "polarized": False, "time_like": False, "use_fhmruvv": False, "method": "iterate-exact"}
+    op.q2_from, op.q2_to, op.is_threshold, op.nf, op.order = q0, q1, thr, 4, (3, 0)
+    taken = []
+    op.initialize_op_members = lambda: None
+    op.copy_ns_ops = lambda: taken.append(1)
+    lg = _Logger()
+    saved = eo.logger
+    eo.logger = lg
+    try:
+        op.compute()
+    except _Stop:
+        pass
+    finally:
+        eo.logger = saved
+    if taken and abs(q0 - q1) > 1e-7 + 1e-4 * q1:
+        return {"detail": "Operator.compute (%s, is_threshold=%s) returns the unity operator for q2_from=%r -> q2_to=%r (xif2=%r)" % (mode, thr, q0, q1, xi)}
+    if taken and mode == "expanded" and not thr and abs(xi - 1) > 1e-4:
+        return {"detail": "Operator.compute (expanded, no threshold) returns the unity operator although xif2=%r: the scale-variation kernel is dropped" % xi}
+    if not taken and q0 == q1 and not (mode == "expanded" and not thr):
+        return {"detail": "Operator.compute (%s) integrates over a zero-length evolution q2=%r" % (mode, q0)}
+    return None
+
+
+def add_cases(chk, pid, thorough, qcd=True):
     """register the wiring cases on a Check"""
-    for mode in ("unvaried", "exponentiated", "expanded"):
+    for mode in ("unvaried", "exponentiated", "expanded") if qcd else ():
         for thr in (False, True):
             chk.case("wiring.qcd.%s.thr%d" % (mode, thr), case_wiring, pid=pid, order=(3, 0), mode=mode, thr=thr)
+            chk.case("compute.skip.%s.thr%d" % (mode, thr), case_skip, pid=pid, mode=mode, thr=thr)
     for its in ((1, 2, 3) if thorough else (2, 3)):
         for running in (True, False):
             chk.case("wiring.qed.its%d.run%d" % (its, running), case_wiring, pid=pid, order=(2, 1), mode="unvaried", thr=False, its=its, running=running)
